@@ -452,13 +452,16 @@ impl<'a, R: Clone> AsyncGlobalCache<'a, R> {
 
         let mut order = self.order.lock();
 
-        // Check if another task already inserted this key while we were computing
-        if self.is_already_key_inserted(key, &mut order) {
-            return;
-        }
+        // Last store wins: if the key is already stored (another task inserted it while we
+        // were computing, or the caller is refreshing a stale entry) its value is replaced
+        // in place below and it moves to the back of the queue. The entry count does not
+        // change in that case, so nothing has to be evicted.
+        let replacing = self.detach_existing_key(key, &mut order);
 
         // Handle entry-count limits
-        self.handle_entry_limit_eviction(&mut order);
+        if !replacing {
+            self.handle_entry_limit_eviction(&mut order);
+        }
 
         // Add the new entry to the order queue
         order.push_back(key.to_string());
@@ -467,47 +470,27 @@ impl<'a, R: Clone> AsyncGlobalCache<'a, R> {
         self.cache.insert(key.to_string(), (value, timestamp, 0));
     }
 
-    /// Checks if a key is already present in the cache and updates its position in the eviction order
-    /// if the eviction policy is Least Recently Used (LRU) or Adaptive Replacement Cache (ARC).
+    /// Prepares the replacement of an already stored key: returns `true` if `key` is present
+    /// and takes it out of the eviction order (the caller pushes it to the back again when it
+    /// stores the new value).
     ///
-    /// # Parameters
-    /// - `key`: A reference to the key being checked as a `&str`.
-    /// - `order`: A mutable reference to a locked `VecDeque<String>` wrapped in a `MutexGuard`.
-    ///    This represents the ordered list of keys, used to determine eviction order.
-    ///
-    /// # Returns
-    /// - `true` if the key is already present in the cache and was processed for eviction policy.
-    /// - `false` if the key was not found in the cache.
-    ///
-    /// # Behavior
-    /// 1. If the key exists in the cache:
-    ///    - If the eviction policy is `LRU` or `ARC`, the key's position in the eviction list (`order`)
-    ///      is updated to reflect that it was recently accessed by removing the old position and appending
-    ///      the key to the back of the `VecDeque`.
-    ///    - The function returns `true`, indicating the key is already in the cache.
-    /// 2. If the key does not exist in the cache:
-    ///    - The function returns `false`, allowing the caller to handle the key insertion.
-    ///
-    /// # Eviction Policies
-    /// - `LRU` (Least Recently Used): Keys recently accessed should stay in the cache,
-    ///   and their access order is updated.
-    /// - `ARC` (Adaptive Replacement Cache): Performs similarly to LRU but may enhance
-    ///   replacement policies in specific cases.
-    fn is_already_key_inserted(
+    /// A second store for a key must update the value ("last store wins"), refresh its
+    /// timestamp and hit counter and move it to the back of the queue, exactly as the
+    /// synchronous caches do. The old value stays in the map until the new one overwrites
+    /// it, so concurrent lookups never see the key missing. Must be called with the order
+    /// lock held; every path that removes entries holds that lock too, so the answer stays
+    /// valid until the caller releases it.
+    fn detach_existing_key(
         &self,
         key: &str,
         order: &mut MutexGuard<RawMutex, VecDeque<String>>,
     ) -> bool {
         if self.cache.contains_key(key) {
-            // Key already exists, just update the order if LRU or ARC
-            if self.policy == EvictionPolicy::LRU || self.policy == EvictionPolicy::ARC {
-                order.retain(|k| k != key);
-                order.push_back(key.to_string());
-            }
-            // Don't insert again
-            return true;
+            order.retain(|k| k != key);
+            true
+        } else {
+            false
         }
-        false
     }
 
     /// Finds the key with minimum frequency for LFU eviction.
@@ -813,10 +796,10 @@ impl<'a, R: Clone + crate::MemoryEstimator> AsyncGlobalCache<'a, R> {
 
         let mut order = self.order.lock();
 
-        // Check if another task already inserted this key while we were computing
-        if self.is_already_key_inserted(key, &mut order) {
-            return;
-        }
+        // Last store wins: an already stored key is replaced in place below (see `insert`).
+        // Its old value no longer counts towards the memory total and it is not an
+        // eviction candidate while room is made for the new value.
+        let replacing = self.detach_existing_key(key, &mut order);
 
         // Check memory limit first (if specified)
         if let Some(max_mem) = self.max_memory {
@@ -830,6 +813,10 @@ impl<'a, R: Clone + crate::MemoryEstimator> AsyncGlobalCache<'a, R> {
                 // 1. Don't cache it at all (skip insertion)
                 // 2. Clear all entries and cache it anyway
                 // We choose option 1 to respect the memory limit
+                if replacing {
+                    // the superseded value must not be served any more
+                    self.cache.remove(key);
+                }
                 return;
             }
 
@@ -837,6 +824,7 @@ impl<'a, R: Clone + crate::MemoryEstimator> AsyncGlobalCache<'a, R> {
                 let current_mem: usize = self
                     .cache
                     .iter()
+                    .filter(|entry| !(replacing && entry.key() == key))
                     .map(|entry| entry.value().0.estimate_memory())
                     .sum();
 
@@ -903,8 +891,11 @@ impl<'a, R: Clone + crate::MemoryEstimator> AsyncGlobalCache<'a, R> {
             }
         }
 
-        // Handle entry-count limits (reuse the same method)
-        self.handle_entry_limit_eviction(&mut order);
+        // Handle entry-count limits (reuse the same method); replacing a stored key does not
+        // change the entry count
+        if !replacing {
+            self.handle_entry_limit_eviction(&mut order);
+        }
 
         // Add the new entry to the order queue
         order.push_back(key.to_string());
